@@ -3,9 +3,12 @@
 package server
 
 import (
+	"encoding/binary"
 	"os"
 	"strings"
 	"time"
+
+	"github.com/dgraph-io/badger/v4"
 
 	"github.com/mimiro-io/datahub/internal/verifh"
 )
@@ -258,4 +261,111 @@ func VerifC13Crash(h *verifh.H) {
 		h.Assert(i2 != i3 && i2 != i1, "identifiers have distinct internal ids")
 	}
 	h.Observe("acked", h.Acked())
+}
+
+// vIDTables reads the two identifier tables (uri -> id, id -> uri) straight
+// from the store.
+func vIDTables(h *verifh.H, hub *VHub) (map[string]uint64, map[uint64]string) {
+	u2i := map[string]uint64{}
+	i2u := map[uint64]string{}
+	err := hub.Store.database.View(func(txn *badger.Txn) error {
+		for _, idx := range []uint16{URIToIDIndexID, IDToURIIndexID} {
+			opts := badger.DefaultIteratorOptions
+			prefix := []byte{byte(idx >> 8), byte(idx)}
+			it := txn.NewIterator(opts)
+			for it.Seek(prefix); it.ValidForPrefix(prefix); it.Next() {
+				k := it.Item().KeyCopy(nil)
+				v, _ := it.Item().ValueCopy(nil)
+				if idx == URIToIDIndexID {
+					if len(v) == 8 {
+						u2i[string(k[2:])] = binary.BigEndian.Uint64(v)
+					}
+				} else if len(k) == 10 {
+					i2u[binary.BigEndian.Uint64(k[2:])] = string(v)
+				}
+			}
+			it.Close()
+		}
+		return nil
+	})
+	h.Assert(err == nil, "identifier tables readable")
+	return u2i, i2u
+}
+
+// VerifC13Ids: every identifier string has exactly one internal id and every
+// internal id one identifier, whatever introduces the identifiers: a history
+// of batches and multi-dataset transactions in which a new entity id, a new
+// predicate or a new reference target may be named in two datasets of one
+// transaction, several times in one batch, or again after a restart. After
+// every step the two identifier tables are inverse to each other, no id was
+// given to two identifiers, an id handed out before is unchanged, and the
+// entity written under an identifier is found under it in every dataset it was
+// written to.
+func VerifC13Ids(h *verifh.H) {
+	hub := VerifNewHub(h)
+	_, err := hub.Dsm.CreateDataset("d1", nil)
+	h.Assert(err == nil, "create")
+	_, err = hub.Dsm.CreateDataset("d2", nil)
+	h.Assert(err == nil, "create")
+	ids := []string{"ns0:n1", "ns0:n2"}
+	preds := []string{"ns0:q1", "ns0:q2"}
+	targets := []string{"ns0:t1", "ns0:n1"}
+	mk := func(tag string) *Entity {
+		e := NewEntity(ids[h.Choice(tag+"id", 2)], 0)
+		if h.Choice(tag+"ref", 2) == 1 {
+			e.References[preds[h.Choice(tag+"pred", 2)]] = targets[h.Choice(tag+"tgt", 2)]
+		}
+		return e
+	}
+	seen := map[string]uint64{}
+	wrote := map[string]map[string]bool{"d1": {}, "d2": {}}
+	steps := h.Param("steps", 2)
+	// a fixed first write, so that also one-step histories meet identifiers that exist already
+	pre := NewEntity("ns0:n1", 0)
+	pre.References["ns0:q1"] = "ns0:t1"
+	h.Assert(hub.Dsm.GetDataset("d1").StoreEntities([]*Entity{pre}) == nil, "first write")
+	wrote["d1"]["ns0:n1"] = true
+	for s := 0; s <= steps; s++ {
+		op := 2 // the history ends with a restart
+		if s < steps {
+			op = h.Choice("op", 3)
+		}
+		switch op {
+		case 0: // a batch of two entities to one dataset
+			dn := []string{"d1", "d2"}[h.Choice("ds", 2)]
+			a, b := mk("a"), mk("b")
+			h.Assert(hub.Dsm.GetDataset(dn).StoreEntities([]*Entity{a, b}) == nil, "batch accepted")
+			wrote[dn][a.ID], wrote[dn][b.ID] = true, true
+		case 1: // one transaction writing one entity to each dataset
+			a, b := mk("a"), mk("b")
+			txn := &Transaction{DatasetEntities: map[string][]*Entity{"d1": {a}, "d2": {b}}}
+			h.Assert(hub.Store.ExecuteTransaction(txn) == nil, "transaction accepted")
+			wrote["d1"][a.ID], wrote["d2"][b.ID] = true, true
+		case 2: // restart
+			hub = hub.Restart()
+		}
+		u2i, i2u := vIDTables(h, hub)
+		used := map[uint64]string{}
+		for u, id := range u2i {
+			other, dup := used[id]
+			h.Assert(!dup, "no internal id is given to two identifiers :: id="+itoa(int(id))+" "+u+" and "+other)
+			used[id] = u
+			h.Assert(i2u[id] == u, "the id -> identifier table is the inverse of the identifier -> id table :: "+u+" -> "+itoa(int(id))+" -> "+i2u[id])
+			if old, ok := seen[u]; ok {
+				h.Assert(old == id, "an internal id never changes once handed out :: "+u+" was "+itoa(int(old))+" is "+itoa(int(id)))
+			}
+			seen[u] = id
+		}
+		for id, u := range i2u {
+			h.Assert(u2i[u] == id, "every internal id belongs to the identifier that maps to it :: id="+itoa(int(id))+" names "+u+" which maps to "+itoa(int(u2i[u])))
+		}
+		// an entity written under an identifier is found under it in every dataset it went to
+		for _, dn := range []string{"d1", "d2"} {
+			for u := range wrote[dn] {
+				e, err := hub.Store.GetEntity(u, []string{dn}, true)
+				h.Assert(err == nil && e != nil && e.ID == u && e.Recorded != 0, "an entity written under an identifier is found under it :: ds="+dn+" id="+u)
+			}
+		}
+	}
+	h.Observe("ids", len(seen))
 }
